@@ -93,18 +93,105 @@ def squeeze(s):
     return re.sub(r"\s+", "", s)
 
 
-def wipe_calls(body):
-    """Sequence of (kind, size-expression) for the insecure_memzero(..) / free(..) calls of a body,
-    kind 1 = insecure_memzero(obj, SIZE), kind 2 = free(obj)."""
+def strip_casts(e):
+    """an argument with redundant parentheses and pointer / size_t casts removed"""
+    e = strip_parens(e)
+    while True:
+        m = re.match(r"\((?:const)?(?:void|size_t|struct\w+|uint8_t|char|unsignedchar|AES_KEY)\**\)", e)
+        if not m or not e[m.end():]:
+            return e
+        e = strip_parens(e[m.end():])
+
+
+def canon_size(text, ptr_types):
+    """sizeof(T), sizeof(*p) with p a pointer of known pointee type, with redundant parentheses and
+    (size_t) casts -> 'sizeof(T)' (T without white space); anything else is refused"""
+    e = strip_casts(squeeze(text))
+    m = re.fullmatch(r"sizeof\((.*)\)", e) or re.fullmatch(r"sizeof(\*\w+)", e)
+    if not m or (m.group(0).startswith("sizeof(") and balanced(e, 6) != len(e)):
+        raise NotFound("size expression with no form: " + text.strip()[:80])
+    x = strip_parens(m.group(1))
+    if x.startswith("*"):
+        nm = strip_parens(x[1:])
+        if nm not in ptr_types:
+            raise NotFound("sizeof(*%s): pointee type not known" % nm)
+        return "sizeof(%s)" % ptr_types[nm]
+    if re.fullmatch(r"(?:struct)?[A-Za-z_]\w*", x) and x not in ptr_types:
+        return "sizeof(%s)" % x
+    raise NotFound("size expression with no form: " + text.strip()[:80])
+
+
+def pointer_types(sig, nodes):
+    """pointer parameters / locals -> squeezed pointee type"""
+    out = {}
+    for ty, stars, name in sig:
+        if stars == 1:
+            out[name] = squeeze(ty)
+    for nd in nodes:
+        if nd[0] == "decl":
+            m = re.fullmatch(r"(.*?)\s*\*\s*(?:const\s+)?(\w+)", re.sub(r"\bconst\b", " ", nd[1]).strip(), flags=re.S)
+            if m and "*" not in m.group(1):
+                out[m.group(2)] = squeeze(m.group(1))
+    return out
+
+
+def free_path(src, fname):
+    """The release path of a free function as [(kind, canonical size text)]: kind 1 =
+    insecure_memzero(obj, SIZE), kind 2 = free(obj), where obj is the function's parameter or a local
+    alias of it.  Understood around them: `if (obj == NULL) return;`, `if (obj != NULL) { ... }`,
+    declarations, alias assignments `tmp = (cast)obj`, asserts (an assert that fires aborts before
+    anything is released).  Any other statement: refused."""
+    sig = func_sig(src, fname)
+    if len(sig) != 1 or sig[0][1] != 1:
+        raise NotFound("parameter of " + fname)
+    nodes = parse_block(func_body(src, fname))
+    types = pointer_types(sig, nodes)
+    alias = {sig[0][2]}
     calls = []
-    for m in re.finditer(r"\b(insecure_memzero|free)\s*\(([^;]*)\)\s*;", body):
-        if m.group(1) == "free":
-            calls.append((2, ""))
-        else:
-            args = m.group(2).split(",", 1)
-            if len(args) != 2:
-                raise NotFound("insecure_memzero arguments")
-            calls.append((1, squeeze(args[1])))
+
+    def is_obj(e):
+        return strip_casts(squeeze(e)) in alias
+
+    def null_test(c):
+        c = strip_parens(squeeze(c))
+        for a in alias:
+            if c in ("%s==NULL" % a, "NULL==%s" % a, "!%s" % a):
+                return "null"
+            if c in ("%s!=NULL" % a, "NULL!=%s" % a, a):
+                return "nonnull"
+        return None
+
+    def walk(nl, top):
+        for k, nd in enumerate(nl):
+            if nd[0] == "decl":
+                continue
+            if nd[0] == "if" and not nd[3] and null_test(nd[1]) == "null" and nd[2] == [("return", "")] and top:
+                continue
+            if nd[0] == "if" and not nd[3] and null_test(nd[1]) == "nonnull" and top and k == len(nl) - 1:
+                walk(nd[2], False)
+                continue
+            if nd[0] == "expr":
+                t = nd[1].strip()
+                a = call_args(t, "assert")
+                if a is not None:
+                    continue
+                a = call_args(t, "insecure_memzero")
+                if a is not None and len(a) == 2 and is_obj(a[0]):
+                    calls.append((1, canon_size(a[1], types)))
+                    continue
+                a = call_args(t, "free")
+                if a is not None and len(a) == 1 and is_obj(a[0]):
+                    calls.append((2, ""))
+                    continue
+                m = re.fullmatch(r"(\w+)\s*=(?!=)\s*(.+)", t, flags=re.S)
+                if m and m.group(1) in types and is_obj(m.group(2)) and not calls:
+                    alias.add(m.group(1))
+                    continue
+            raise NotFound("%s: statement with no form: %s" % (fname, squeeze(str(nd[1]))[:100]))
+
+    walk(nodes, True)
+    if not calls:
+        raise NotFound("no release calls in " + fname)
     return calls
 
 
@@ -113,11 +200,14 @@ def coq_calls(name, calls):
     return "Definition %s : list (N * list N) :=\n  [%s].\n" % (name, items)
 
 
-def malloc_expr(body):
-    m = re.search(r"\bmalloc\s*\((.*?)\)\s*\)\s*==\s*NULL", body, flags=re.S)
-    if not m:
-        raise NotFound("malloc size expression")
-    return squeeze(m.group(1))
+def malloc_expr(src, fname):
+    """canonical size expression of the one `(p = malloc(SIZE)) == NULL` of the function"""
+    body = func_body(src, fname)
+    ms = list(re.finditer(r"\bmalloc\s*(?=\()", body))
+    if len(ms) != 1:
+        raise NotFound("malloc call of " + fname)
+    j = balanced(body, ms[0].end())
+    return canon_size(body[ms[0].end() + 1:j - 1], pointer_types(func_sig(src, fname), parse_block(body)))
 
 
 def struct_vector(text, field):
@@ -307,12 +397,43 @@ def init_statements(body, var="hwaccel"):
             j = balanced(rest, m.end() - 1, "{", "}")
         else:
             j = m.end() if m else len(rest)
-        out.append((K_UNKNOWN, "", squeeze(rest[:j]), 0)); i += j
+        # no form for this statement: refuse the function (the pinned output is then used and the
+        # correspondence run decides), never emit a reading the interpreter would have to guess at
+        raise NotFound("hwaccel_init statement with no form: " + squeeze(rest[:j])[:120])
+
+
+def const_fold(text):
+    """value of a C integer constant expression made of literals, + - * << >> and parentheses, else None"""
+    t = re.sub(r"(?<=[0-9a-fA-F])[uUlL]+\b", "", squeeze(text))
+    if not re.fullmatch(r"[0-9xXa-fA-F()+\-*<>]+", t) or not re.search(r"\d", t):
+        return None
+    try:
+        v = eval(t, {"__builtins__": {}})
+    except Exception:
+        return None
+    return v if isinstance(v, int) and not isinstance(v, bool) else None
+
+
+def canon_threshold(cond):
+    """`buflen >= K` in any equivalent spelling (K a constant expression, mirrored operands,
+    `> K-1`) -> 'buflen>=<K>'; None if the text is not of that kind"""
+    c = strip_parens(cond)
+    for rx, swap, strict in ((r"(\w+)>=(.+)", False, False), (r"(.+)<=(\w+)", True, False),
+                             (r"(\w+)>(?!=)(.+)", False, True), (r"(.+)<(?!=)(\w+)", True, True)):
+        m = re.fullmatch(rx, c)
+        if not m:
+            continue
+        var, k = (m.group(2), m.group(1)) if swap else (m.group(1), m.group(2))
+        v = const_fold(k)
+        if re.fullmatch(r"[A-Za-z_]\w*", var) and v is not None:
+            return "%s>=%d" % (var, v + 1 if strict else v)
+    return None
 
 
 def dispatch_entries(body, default_rx, default_name, var="hwaccel"):
     """A function that tests hwaccel: the calls of hwaccel_init() and the `if (.. hwaccel == V ..)`
-    statements in source order, then what the fall-through code does."""
+    statements in source order, then what the fall-through code does.  Conditions are emitted in one
+    canonical spelling (`hwaccel==V`, `buflen>=<K>`); a test of hwaccel in any other form is refused."""
     ev = []
     for m in re.finditer(r"\bhwaccel_init\s*\(\s*\)\s*;", body):
         ev.append((m.start(), (D_INIT, "", "", "")))
@@ -323,21 +444,29 @@ def dispatch_entries(body, default_rx, default_name, var="hwaccel"):
         if var not in c:
             continue
         parts = [strip_parens(p) for p in re.split(r"&&", c)]
-        hws = [p for p in parts if re.fullmatch(r"%s==\w+" % re.escape(var), p)]
-        others = [p for p in parts if p not in hws]
+        hws, others = [], []
+        for p_ in parts:
+            mm = re.fullmatch(r"%s==(\w+)" % re.escape(var), p_) or re.fullmatch(r"(\w+)==%s" % re.escape(var), p_)
+            if mm:
+                hws.append(mm.group(1))
+            else:
+                others.append(p_)
         tail = body[j:]
         m2 = re.match(r"\s*return\s*\(?\s*(\w+)", tail) or re.match(r"\s*\{\s*(\w+)\s*\([^;]*;\s*return\s*;\s*\}", tail)
-        if len(hws) == 1 and len(others) <= 1 and "||" not in c and m2:
-            ev.append((m.start(), (D_IF_HW, hws[0].split("==")[1], m2.group(1), others[0] if others else "")))
+        other = ""
+        if len(others) == 1:
+            other = canon_threshold(others[0])
+        if len(hws) == 1 and len(others) <= 1 and other is not None and "||" not in c and m2:
+            ev.append((m.start(), (D_IF_HW, hws[0], m2.group(1), other)))
             last = max(last, j + m2.end())
         else:
-            ev.append((m.start(), (D_UNKNOWN, "", squeeze(body[m.start():j]), "")))
+            raise NotFound("test of %s with no form: %s" % (var, squeeze(body[m.start():j])[:120]))
     ev.sort()
     out = [e for _, e in ev]
     if re.search(default_rx, body[last:], flags=re.S):
         out.append((D_DEFAULT, "", default_name, ""))
     else:
-        out.append((D_UNKNOWN, "", "fall-through code", ""))
+        raise NotFound("fall-through code of a function testing %s: no form" % var)
     return out
 
 
@@ -568,14 +697,20 @@ class ExprParser:
         return left
 
 
+def refuse(what):
+    """The statement / expression / function shape has no form here: the whole module is refused (the
+    pinned output is installed and the correspondence run decides); a guessed reading is never emitted."""
+    raise NotFound("CTR bookkeeping: no form for " + re.sub(r"\s+", " ", what).strip()[:140])
+
+
 def parse_expr(text, vars, pblk=None):
     toks = tokens(text)
     if not toks:
-        return "EUnknown"
+        refuse("expression `%s`" % text)
     p = ExprParser(toks, vars, pblk)
     e = p.expr(0)
     if p.i != len(toks) or p.bad:
-        return "EUnknown"
+        refuse("expression `%s`" % text)
     return e
 
 
@@ -583,7 +718,7 @@ def parse_lvalue(text, vars, pblk=None):
     toks = tokens(text)
     if not toks:
         return None
-    while len(toks) >= 2 and toks[0] == "(" and toks[-1] == ")":
+    while len(toks) >= 2 and toks[0] == "(" and toks[-1] == ")" and balanced("".join(toks), 0) == len("".join(toks)):
         toks = toks[1:-1]
     p = ExprParser(toks, vars, pblk)
     lv = p.lvalue()
@@ -596,36 +731,74 @@ def comment(text):
     return "(* %s *)" % re.sub(r"\s+", " ", text).strip().replace("(*", "( *").replace("*)", "* )")
 
 
+def ptr_off(text):
+    """`base + N`, `&base[N]`, `base` (parentheses ignored) -> (base without white space, N) or None"""
+    e = strip_parens(squeeze(text))
+    m = re.fullmatch(r"&(.+)\[(\d+)\]", e)
+    if m:
+        return strip_parens(m.group(1)), int(m.group(2))
+    m = re.fullmatch(r"(.+?)\+(\d+)", e)
+    if m and balanced_ok(m.group(1)):
+        return strip_parens(m.group(1)), int(m.group(2))
+    m = re.fullmatch(r"(\d+)\+(.+)", e)
+    if m and balanced_ok(m.group(2)):
+        return strip_parens(m.group(2)), int(m.group(1))
+    if re.fullmatch(r"[\w>.-]+", e):
+        return e, 0
+    return None
+
+
+def balanced_ok(e):
+    d = 0
+    for ch in e:
+        d += ch in "([" 
+        d -= ch in ")]"
+        if d < 0:
+            return False
+    return d == 0
+
+
+def is_vec_stmt(text):
+    return re.search(r"_mm_|load_si64|crypto_aes_encrypt_block_aesni_m128i", text) is not None
+
+
 def parse_stmt(text, vars, pblk=None, arr=None, pblk_name=None):
-    """one expression statement (no trailing ';') -> Coq cstmt"""
+    """one expression statement (no trailing ';') -> Coq cstmt; refused if it has no form"""
     text = text.strip()
     c = " " + comment(text)
+    a = call_args(text, "assert")
+    if a is not None:
+        if len(a) != 1:
+            refuse(text)
+        return "SAssert %s%s" % (parse_expr(a[0], vars, pblk), c)
     m = re.fullmatch(r"(.+?)\s*(\+\+|--)", text, flags=re.S) or None
     pre = re.fullmatch(r"(\+\+|--)\s*(.+)", text, flags=re.S)
     if m or pre:
         lvt, op = (m.group(1), m.group(2)) if m else (pre.group(2), pre.group(1))
         lv = parse_lvalue(lvt, vars, pblk)
-        if lv is not None:
-            return "SAssign %d%%N (Some %s) (ELit S32 1)%s" % (lv, "OAdd" if op == "++" else "OSub", c)
-        return "SUnknown" + c
-    m = re.fullmatch(r"be64enc\s*\((.*)\)", text, flags=re.S)
-    if m:
-        a = top_level_args_ws(m.group(1))
-        if len(a) == 2:
-            dst = squeeze(a[0])
-            if arr and dst == arr:
-                return "SBe64 0%%N 0%%N %s%s" % (parse_expr(a[1], vars, pblk), c)
-            mm = re.fullmatch(r"(.+?)\+(\w+)", dst)
-            if pblk_name and mm and mm.group(1) == pblk_name and re.fullmatch(r"\d+", mm.group(2)):
-                return "SBe64 1%%N %d%%N %s%s" % (int(mm.group(2)), parse_expr(a[1], vars, pblk), c)
-        return "SUnknown" + c
-    m = re.fullmatch(r"memcpy\s*\((.*)\)", text, flags=re.S)
-    if m:
-        a = [squeeze(x) for x in top_level_args_ws(m.group(1))]
-        mm = re.fullmatch(r"(.+?)\+(\d+)", a[0]) if len(a) == 3 else None
-        if mm and pblk_name and mm.group(1) == pblk_name and arr and a[1] == arr and re.fullmatch(r"\d+", a[2]):
-            return "SMemcpy %d%%N %d%%N%s" % (int(mm.group(2)), int(a[2]), c)
-        return "SUnknown" + c
+        if lv is None:
+            refuse(text)
+        return "SAssign %d%%N (Some %s) (ELit S32 1)%s" % (lv, "OAdd" if op == "++" else "OSub", c)
+    a = call_args(text, "be64enc")
+    if a is not None:
+        d = ptr_off(a[0]) if len(a) == 2 else None
+        if d and arr and d == (arr, 0):
+            return "SBe64 0%%N 0%%N %s%s" % (parse_expr(a[1], vars, pblk), c)
+        if d and pblk_name and d[0] == pblk_name:
+            return "SBe64 1%%N %d%%N %s%s" % (d[1], parse_expr(a[1], vars, pblk), c)
+        refuse(text)
+    a = call_args(text, "memcpy")
+    if a is not None:
+        d = ptr_off(a[0]) if len(a) == 3 else None
+        src = ptr_off(a[1]) if len(a) == 3 else None
+        ln = None
+        if len(a) == 3:
+            ln = const_fold(a[2])
+            if ln is None and arr and strip_parens(squeeze(a[2])) in ("sizeof(%s)" % arr, "sizeof%s" % arr):
+                ln = 8
+        if d and src and pblk_name and d[0] == pblk_name and arr and src == (arr, 0) and ln is not None and 0 < ln <= 8:
+            return "SMemcpy %d%%N %d%%N%s" % (d[1], ln, c)
+        refuse(text)
     # assignment: the first top-level assignment operator
     toks = tokens(text)
     if toks:
@@ -636,7 +809,6 @@ def parse_stmt(text, vars, pblk=None, arr=None, pblk_name=None):
             elif t in ")]":
                 depth -= 1
             elif depth == 0 and t in ASSIGN_OPS:
-                # re-split the text at this operator occurrence
                 lhs = " ".join(toks[:k])
                 rhs = " ".join(toks[k + 1:])
                 lv = parse_lvalue(lhs, vars, pblk)
@@ -644,9 +816,9 @@ def parse_stmt(text, vars, pblk=None, arr=None, pblk_name=None):
                     op = ASSIGN_OPS[t]
                     return "SAssign %d%%N %s %s%s" % (lv, "(Some %s)" % op if op else "None", parse_expr(rhs, vars, pblk), c)
                 break
-    if re.search(r"_mm_|__m128i|load_si64|crypto_aes_encrypt_block_aesni_m128i", text):
+    if is_vec_stmt(text):
         return "SVec" + c
-    return "SUnknown" + c
+    refuse(text)
 
 
 def top_level_args_ws(text):
@@ -730,8 +902,9 @@ def parse_block(text):
         s = text[i:j].strip()
         if re.match(r"return\b", s):
             return [("return", s[6:].strip())], j + 1
-        if re.match(r"(?:const\s+|static\s+|volatile\s+)*(?:struct\s+\w+|__m128i|u?int\d+_t|size_t|ssize_t|unsigned|int|long|char|short)\b[\s\w*]*\b\w+\s*(?:\[[^\]]*\])?\s*(?:=.*)?$", s, flags=re.S) \
-                and not re.match(r"\w+\s*(?:[-+*/%&|^]|<<|>>)?=", s):
+        if re.match(r"(?:(?:const|static|volatile|struct|unsigned|signed|long|short)\s+)*[A-Za-z_]\w*(?:\s*\*+\s*(?:const\s+)?|\s+)"
+                    r"[A-Za-z_]\w*\s*(?:\[[^\]]*\])?\s*(?:=(?!=).*)?$", s, flags=re.S) \
+                and not re.match(r"(?:return|goto|else|do|case)\b", s):
             # `T name = init` is a declaration followed by the assignment `name = init`
             dm = re.fullmatch(r"(.*?\b(\w+)\s*)=(?!=)(.*)", s, flags=re.S)
             if dm and "[" not in dm.group(1):
@@ -755,6 +928,8 @@ def func_sig(src, name):
             continue
         out = []
         for p in top_level_args_ws(src[m.end() + 1:j - 1]):
+            if p.strip() in ("void", ""):
+                continue
             mm = re.fullmatch(r"(.*?)([\s*]+)(\w+)", p.strip(), flags=re.S)
             if not mm:
                 raise NotFound("parameter '%s' of %s" % (p, name))
@@ -821,37 +996,142 @@ PRE, POST = "crypto_aesctr_stream_pre_wholeblock", "crypto_aesctr_stream_post_wh
 
 def use_call(node, first4, vars):
     """node = ('expr', 'crypto_aesctr_stream_cipherblock_use(a, b, c, d, NBYTES, BYTEMOD)') with the
-    first four arguments as expected -> (expr, expr) or None"""
-    if node[0] != "expr":
-        return None
-    a = call_args(node[1], USE)
-    if not a or len(a) != 6 or [squeeze(x) for x in a[:4]] != first4:
-        return None
+    first four arguments as expected -> (expr, expr, text)"""
+    a = call_args(node[1], USE) if node[0] == "expr" else None
+    if not a or len(a) != 6 or [strip_parens(squeeze(x)) for x in a[:4]] != first4:
+        refuse("call of %s: %s" % (USE, node[1] if len(node) > 1 else node[0]))
     return parse_expr(a[4], vars), parse_expr(a[5], vars), node[1]
 
 
 def coq_call(name, r):
-    if not r:
-        return "Definition %s : cexpr * cexpr := (EUnknown, EUnknown).\n" % name
     return "Definition %s : cexpr * cexpr :=\n  (%s,\n   %s).  %s\n" % (name, r[0], r[1], comment(r[2]))
 
 
-def locals_of(nodes, order_texts, vars):
-    """declared scalar integer locals: name -> ctype; numbered in the order of their first
-    assignment in order_texts (statement texts in source order)"""
+def is_call(text, callee, args):
+    a = call_args(strip_parens_ws(text), callee)
+    return a is not None and [strip_parens(squeeze(x)) for x in a] == args
+
+
+def strip_parens_ws(t):
+    t = t.strip()
+    while t.startswith("(") and balanced(t, 0) == len(t):
+        t = t[1:-1].strip()
+    return t
+
+
+def truth_of_call(cond, callee, args):
+    """`f(args)`, `f(args) != 0`, `0 != f(args)` (any parentheses): the condition "f returned non-zero" """
+    c = strip_parens_ws(cond)
+    m = re.fullmatch(r"(.+?)\s*!=\s*0", c, flags=re.S) or re.fullmatch(r"0\s*!=\s*(.+)", c, flags=re.S)
+    if m and is_call(m.group(1), callee, args):
+        return True
+    return is_call(c, callee, args)
+
+
+def assigned_names(text):
+    """identifiers on the left of an assignment / ++ / -- of one expression statement"""
+    t = text.strip()
+    m = re.fullmatch(r"(.+?)\s*(?:\+\+|--)", t, flags=re.S) or re.fullmatch(r"(?:\+\+|--)\s*(.+)", t, flags=re.S)
+    if m:
+        return set(re.findall(r"[A-Za-z_]\w*", m.group(1)))
+    toks = tokens(t) or []
+    depth = 0
+    for k, tk in enumerate(toks):
+        if tk in "([":
+            depth += 1
+        elif tk in ")]":
+            depth -= 1
+        elif depth == 0 and tk in ASSIGN_OPS:
+            return set(x for x in toks[:k] if re.fullmatch(r"[A-Za-z_]\w*", x))
+    return set()
+
+
+def plain_assign(text):
+    """`name = rhs` -> (name, rhs) else None"""
+    m = re.fullmatch(r"([A-Za-z_]\w*)\s*=(?!=)\s*(.+)", text.strip(), flags=re.S)
+    return (m.group(1), m.group(2)) if m else None
+
+
+def scalar_decls(nodes):
+    """declared scalar integer locals: name -> (ctype, type text)"""
     decl = {}
     for nd in nodes:
         if nd[0] == "decl":
             m = re.fullmatch(r"(.*?)[\s*]+(\w+)\s*(\[[^\]]*\])?\s*", nd[1], flags=re.S)
             if m and not m.group(3) and "*" not in nd[1] and ctype_of(m.group(1)):
-                decl[m.group(2)] = ctype_of(m.group(1))
+                decl[m.group(2)] = (ctype_of(m.group(1)), " ".join(re.sub(r"\bconst\b", " ", m.group(1)).split()))
+    return decl
+
+
+def simplify_locals(parts, decl):
+    """parts: list of lists of statement texts in execution order (e.g. prologue, loop body, epilogue);
+    only the FIRST and LAST lists are straight-line code executed once.
+    (1) a store `x = <constant>` to a local that is overwritten by a later plain assignment of the same
+        straight-line list before x is read is dead: dropped;
+    (2) a local temporary assigned exactly once, by a plain assignment in straight-line code, none of
+        whose operands is assigned anywhere afterwards, is replaced by ((T)(its definition)) at its uses.
+    Returns the new parts."""
+    word = lambda n, t: re.search(r"\b%s\b" % re.escape(n), t) is not None
+    # (1)
+    for li in (0, len(parts) - 1):
+        l = parts[li]
+        k = 0
+        while k < len(l):
+            pa = plain_assign(l[k])
+            if pa and pa[0] in decl and const_fold(pa[1]) is not None:
+                for j in range(k + 1, len(l)):
+                    pj = plain_assign(l[j])
+                    if pj and pj[0] == pa[0] and not word(pa[0], pj[1]):
+                        del l[k]
+                        k -= 1
+                        break
+                    if word(pa[0], l[j]):
+                        break
+            k += 1
+    # (2)
+    changed = True
+    while changed:
+        changed = False
+        flat = [(li, k) for li, l in enumerate(parts) for k in range(len(l))]
+        for name in list(decl):
+            defs = [(li, k) for (li, k) in flat if name in assigned_names(parts[li][k])]
+            if len(defs) != 1:
+                continue
+            li, k = defs[0]
+            pa = plain_assign(parts[li][k])
+            if not pa or li not in (0, len(parts) - 1) or word(name, pa[1]):
+                continue
+            pos = flat.index((li, k))
+            later = [parts[a][b2] for (a, b2) in flat[pos + 1:]]
+            earlier = [parts[a][b2] for (a, b2) in flat[:pos]]
+            if li == 0 and len(parts) > 1 and any(word(name, t) for t in parts[1]) and len(parts) == 3:
+                # used inside the loop: its operands must not change there either (covered by `later`)
+                pass
+            if any(word(name, t) for t in earlier):
+                continue
+            operands = set(re.findall(r"[A-Za-z_]\w*", pa[1]))
+            if any(operands & assigned_names(t) for t in later):
+                continue
+            if not any(word(name, t) for t in later):
+                continue                       # never used: leave it (it is then numbered like any local)
+            repl = "((%s)(%s))" % (decl[name][1], pa[1])
+            for (a, b2) in flat[pos + 1:]:
+                parts[a][b2] = re.sub(r"\b%s\b" % re.escape(name), lambda _m: repl, parts[a][b2])
+            del parts[li][k]
+            del decl[name]
+            changed = True
+            break
+    return parts
+
+
+def number_locals(texts, decl, vars):
     ids, nxt = [], V_LOCAL0
-    for t in order_texts:
-        m = re.match(r"\s*(?:\+\+|--)?\s*(\w+)\s*(?:\+\+|--|(?:[-+*/%&|^]|<<|>>)?=(?!=))", t)
-        if m and m.group(1) in decl and m.group(1) not in vars:
-            vars[m.group(1)] = nxt
-            ids.append((nxt, decl[m.group(1)]))
-            nxt += 1
+    for t in texts:
+        for n in sorted(assigned_names(t) & set(decl)):
+            if n not in vars:
+                vars[n] = nxt
+                ids.append((nxt, decl[n][0]))
+                nxt += 1
     return ids
 
 
@@ -871,65 +1151,116 @@ def flat_texts(nodes):
     return out
 
 
+def expr_texts(nodes, what):
+    out = []
+    for nd in nodes:
+        if nd[0] != "expr":
+            refuse("%s: a `%s` statement" % (what, nd[0]))
+        out.append(nd[1])
+    return out
+
+
+def early_returns(nodes, vars):
+    """leading `if (c) return;` statements -> ([cexpr], remaining nodes)"""
+    out = []
+    while nodes and nodes[0][0] == "if" and not nodes[0][3] and nodes[0][2] == [("return", "")] and \
+            not re.search(r"\w\s*\(", nodes[0][1]):
+        out.append((parse_expr(nodes[0][1], vars), nodes[0][1]))
+        nodes = nodes[1:]
+    return out, nodes
+
+
+def coq_exprs(name, l):
+    return "Definition %s : list cexpr :=\n  [%s].\n" % (name, ";\n   ".join("%s %s" % (e, comment("if (%s) return" % t)) for e, t in l))
+
+
+def canon_vec(texts, names):
+    """the __m128i statements with their local names replaced by v0, v1, .. in order of appearance"""
+    order = []
+    joined = ";".join(squeeze(t) for t in texts)
+    for m in re.finditer(r"[A-Za-z_]\w*", joined):
+        if m.group(0) in names and m.group(0) not in order:
+            order.append(m.group(0))
+    for k, n in enumerate(order):
+        joined = re.sub(r"\b%s\b" % re.escape(n), "v%d" % k, joined)
+    return joined
+
+
 def arithmetic(repo):
     shared = strip_comments(read(repo, "crypto/crypto_aesctr_shared.c"))
     ctr = preprocess(strip_comments(read(repo, "crypto/crypto_aesctr.c")), set())
     ni = strip_comments(read(repo, "crypto/crypto_aesctr_aesni.c"))
     out = "From Coq Require Import NArith ZArith List.\nFrom LCP Require Import Crypto.AesCtrArith.\nImport ListNotations.\nLocal Open Scope Z_scope.\n\n"
     out += "(* variables: 1 stream->bytectr, 2 *buflen, 3 *inbuf, 4 *outbuf (offsets), 5 nbytes, 6 bytemod,\n" \
-           "   7 stream->pblk[gen_pblk_idx]; 16.. the function's integer locals in the order of their first assignment *)\n\n"
+           "   7 stream->pblk[gen_pblk_idx]; 16.. the function's integer locals in the order of their first assignment\n" \
+           "   (dead constant initialisers dropped, single-definition temporaries replaced by their definition) *)\n\n"
     fields = struct_fields(shared, "crypto_aesctr")
     if "bytectr" not in fields or "pblk" not in fields:
         raise NotFound("fields of struct crypto_aesctr")
     out += coq_ty("ty_bytectr", fields["bytectr"][0], "struct crypto_aesctr: bytectr")
     out += coq_ty("ty_pblk", fields["pblk"][0], "struct crypto_aesctr: pblk[%s]" % fields["pblk"][1])
 
-    # ---- crypto_aesctr_stream_cipherblock_generate
+    # ---- crypto_aesctr_stream_cipherblock_generate:
+    #      assert(A); S->pblk[K]++; if (C) be64enc(S->pblk + off, E); crypto_aes_encrypt_block(S->pblk, S->buf, S->key);
     out += "\n(* ---- %s *)\n" % GEN
     sig = func_sig(shared, GEN)
+    if len(sig) != 1:
+        refuse("parameters of " + GEN)
     S = sig[0][2]
     nodes = [x for x in parse_block(func_body(shared, GEN)) if x[0] != "decl"]
-    ok = len(nodes) == 4 and [x[0] for x in nodes] == ["expr", "expr", "if", "expr"] and not nodes[2][3] and \
-        len(nodes[2][2]) == 1 and nodes[2][2][0][0] == "expr" and \
-        squeeze(nodes[3][1]) == "crypto_aes_encrypt_block(%s->pblk,%s->buf,%s->key)" % (S, S, S)
-    a = call_args(nodes[0][1], "assert") if ok else None
-    m = re.fullmatch(r"(?:\+\+|--)?\s*%s\s*->\s*pblk\s*\[\s*(\d+)\s*\]\s*(?:\+\+|--|[-+*/%%&|^]?=.*)" % re.escape(S),
-                     nodes[1][1].strip(), flags=re.S) if ok else None
-    if ok and a and len(a) == 1 and m:
-        K = int(m.group(1))
-        pb = (S + "->pblk", K)
-        gv = {S + "->bytectr": V_BYTECTR}
-        out += coq_expr("gen_assert", parse_expr(a[0], gv, pb), nodes[0][1])
-        out += coq_def_N("gen_pblk_idx", K)
-        out += coq_stmts("gen_stmts", [parse_stmt(nodes[1][1], gv, pb)])
-        out += coq_expr("gen_wrap_cond", parse_expr(nodes[2][1], gv, pb), "if (%s)" % nodes[2][1])
-        out += coq_stmts("gen_be64", [parse_stmt(nodes[2][2][0][1], gv, pb, pblk_name=S + "->pblk")])
-    else:
-        out += "Definition gen_assert : cexpr := EUnknown.\n" + coq_def_N("gen_pblk_idx", 0) + \
-               "Definition gen_stmts : list cstmt := [SUnknown].\nDefinition gen_wrap_cond : cexpr := EUnknown.\n" \
-               "Definition gen_be64 : list cstmt := [SUnknown].\n"
+    if not (len(nodes) == 4 and [x[0] for x in nodes] == ["expr", "expr", "if", "expr"] and not nodes[2][3] and
+            len(nodes[2][2]) == 1 and nodes[2][2][0][0] == "expr" and
+            is_call(nodes[3][1], "crypto_aes_encrypt_block", [S + "->pblk", S + "->buf", S + "->key"])):
+        refuse("shape of " + GEN)
+    a = call_args(nodes[0][1], "assert")
+    m = re.fullmatch(r"\(?\s*(?:\+\+|--)?\s*\(?\s*%s\s*->\s*pblk\s*\[\s*(\d+)\s*\]\s*\)?\s*(?:\+\+|--|[-+*/%%&|^]?=.*)" % re.escape(S),
+                     nodes[1][1].strip(), flags=re.S)
+    if not (a and len(a) == 1 and m):
+        refuse("assert / counter byte update of " + GEN)
+    K = int(m.group(1))
+    pb = (S + "->pblk", K)
+    gv = {S + "->bytectr": V_BYTECTR}
+    out += coq_expr("gen_assert", parse_expr(a[0], gv, pb), nodes[0][1])
+    out += coq_def_N("gen_pblk_idx", K)
+    out += coq_stmts("gen_stmts", [parse_stmt(nodes[1][1], gv, pb)])
+    out += coq_expr("gen_wrap_cond", parse_expr(nodes[2][1], gv, pb), "if (%s)" % nodes[2][1])
+    be = parse_stmt(nodes[2][2][0][1], gv, pb, pblk_name=S + "->pblk")
+    if not be.startswith("SBe64 1%N"):
+        refuse("re-encoding statement of " + GEN)
+    out += coq_stmts("gen_be64", [be])
 
-    # ---- crypto_aesctr_stream_cipherblock_use
+    # ---- crypto_aesctr_stream_cipherblock_use: the byte loop, then scalar statements
     out += "\n(* ---- %s *)\n" % USE
     sig = func_sig(shared, USE)
-    if len(sig) != 6:
-        raise NotFound("parameters of " + USE)
+    if len(sig) != 6 or sig[4][1] or sig[5][1]:
+        refuse("parameters of " + USE)
     uv = stream_vars(sig, False)
     uv[sig[4][2]] = V_NBYTES
     uv[sig[5][2]] = V_BYTEMOD
     out += coq_ty("use_ty_buflen", ctype_of(sig[3][0]), "%s * %s" % (sig[3][0], sig[3][2]))
-    out += coq_ty("use_ty_nbytes", ctype_of(sig[4][0]) if sig[4][1] == 0 else None, "%s %s" % (sig[4][0], sig[4][2]))
-    out += coq_ty("use_ty_bytemod", ctype_of(sig[5][0]) if sig[5][1] == 0 else None, "%s %s" % (sig[5][0], sig[5][2]))
-    nodes = [x for x in parse_block(func_body(shared, USE)) if x[0] != "decl"]
-    # the byte loop (hand-modelled: out[i] = in[i] ^ buf[bytemod + i], i < nbytes) must come first
-    if nodes and nodes[0][0] == "for" and all(x[0] == "expr" for x in nodes[1:]):
-        out += "(* hand-modelled: for (%s; %s; %s) %s *)\n" % (nodes[0][1], nodes[0][2], nodes[0][3],
-                                                              "; ".join(flat_texts(nodes[0][4])).replace("(*", "( *").replace("*)", "* )"))
-        out += coq_stmts("use_stmts", [parse_stmt(x[1], uv) for x in nodes[1:]])
-    else:
-        out += "Definition use_stmts : list cstmt := [SUnknown].\n"
+    out += coq_ty("use_ty_nbytes", ctype_of(sig[4][0]), "%s %s" % (sig[4][0], sig[4][2]))
+    out += coq_ty("use_ty_bytemod", ctype_of(sig[5][0]), "%s %s" % (sig[5][0], sig[5][2]))
+    allnodes = parse_block(func_body(shared, USE))
+    nodes = [x for x in allnodes if x[0] != "decl"]
+    idx = [m.group(2) for m in (re.fullmatch(r"(size_t|unsigned|unsigned int|int|uint\d+_t)\s+(\w+)", x[1].strip())
+                                for x in allnodes if x[0] == "decl") if m]
+    # the byte loop (hand-modelled: out[i] = in[i] ^ buf[bytemod + i], 0 <= i < nbytes, ascending) in its one known spelling
+    ok = nodes and nodes[0][0] == "for" and len(idx) == 1 and len(nodes[0][4]) == 1 and nodes[0][4][0][0] == "expr"
+    if ok:
+        i_ = idx[0]
+        ob, ib, nb_, bm_ = sig[2][2], sig[1][2], sig[4][2], sig[5][2]
+        ok = squeeze(nodes[0][1]) == "%s=0" % i_ and squeeze(nodes[0][2]) == "%s<%s" % (i_, nb_) and \
+            squeeze(nodes[0][3]) in ("%s++" % i_, "++%s" % i_, "%s+=1" % i_) and \
+            squeeze(nodes[0][4][0][1]) in ("(*%s)[%s]=(*%s)[%s]^%s->buf[%s+%s]" % (ob, i_, ib, i_, sig[0][2], bm_, i_),
+                                           "(*%s)[%s]=(*%s)[%s]^%s->buf[%s+%s]" % (ob, i_, ib, i_, sig[0][2], i_, bm_))
+    if not ok:
+        refuse("byte loop of " + USE)
+    out += "(* hand-modelled: for (%s; %s; %s) %s *)\n" % (nodes[0][1], nodes[0][2], nodes[0][3],
+                                                          "; ".join(flat_texts(nodes[0][4])).replace("(*", "( *").replace("*)", "* )"))
+    out += coq_stmts("use_stmts", [parse_stmt(t, uv) for t in expr_texts(nodes[1:], USE)])
 
     # ---- crypto_aesctr_stream_pre_wholeblock
+    #      bytemod = E; if (C1) { if (C2) { use(.., A, B); return (1); } use(.., A', B'); } return (0);
     out += "\n(* ---- %s *)\n" % PRE
     sig = func_sig(shared, PRE)
     pv = stream_vars(sig, False)
@@ -937,40 +1268,39 @@ def arithmetic(repo):
     out += coq_ty("pre_ty_buflen", ctype_of(sig[3][0]), "%s * %s" % (sig[3][0], sig[3][2]))
     allnodes = parse_block(func_body(shared, PRE))
     nodes = [x for x in allnodes if x[0] != "decl"]
-    decls = locals_of(allnodes, flat_texts(nodes), pv)
-    out += coq_decls("pre_decls", decls)
-    # bytemod = E; if (C1) { if (C2) { use(.., A, B); return (1); } use(.., A', B'); } return (0);
-    ok = len(nodes) == 3 and [x[0] for x in nodes] == ["expr", "if", "return"] and strip_parens(nodes[2][1]) == "0" and \
-        not nodes[1][3] and len(nodes[1][2]) == 2 and nodes[1][2][0][0] == "if" and not nodes[1][2][0][3] and \
-        len(nodes[1][2][0][2]) == 2 and nodes[1][2][0][2][1][0] == "return" and strip_parens(nodes[1][2][0][2][1][1]) == "1"
-    c1 = use_call(nodes[1][2][0][2][0], first4, pv) if ok else None
-    c2 = use_call(nodes[1][2][1], first4, pv) if ok else None
-    if ok and c1 and c2:
-        out += coq_stmts("pre_stmts", [parse_stmt(nodes[0][1], pv)])
-        out += coq_expr("pre_cond1", parse_expr(nodes[1][1], pv), "if (%s)" % nodes[1][1])
-        out += coq_expr("pre_cond2", parse_expr(nodes[1][2][0][1], pv), "if (%s)" % nodes[1][2][0][1])
-        out += coq_call("pre_call1", c1) + coq_call("pre_call2", c2)
-    else:
-        out += "Definition pre_stmts : list cstmt := [SUnknown].\nDefinition pre_cond1 : cexpr := EUnknown.\n" \
-               "Definition pre_cond2 : cexpr := EUnknown.\n" + coq_call("pre_call1", None) + coq_call("pre_call2", None)
+    if not (len(nodes) == 3 and [x[0] for x in nodes] == ["expr", "if", "return"] and strip_parens(squeeze(nodes[2][1])) == "0" and
+            not nodes[1][3] and len(nodes[1][2]) == 2 and nodes[1][2][0][0] == "if" and not nodes[1][2][0][3] and
+            len(nodes[1][2][0][2]) == 2 and nodes[1][2][0][2][1][0] == "return" and
+            strip_parens(squeeze(nodes[1][2][0][2][1][1])) == "1"):
+        refuse("shape of " + PRE)
+    decl = scalar_decls(allnodes)
+    out += coq_decls("pre_decls", number_locals([nodes[0][1]], decl, pv))
+    c1 = use_call(nodes[1][2][0][2][0], first4, pv)
+    c2 = use_call(nodes[1][2][1], first4, pv)
+    st0 = parse_stmt(nodes[0][1], pv)
+    if not st0.startswith("SAssign"):
+        refuse("first statement of " + PRE)
+    out += coq_stmts("pre_stmts", [st0])
+    out += coq_expr("pre_cond1", parse_expr(nodes[1][1], pv), "if (%s)" % nodes[1][1])
+    out += coq_expr("pre_cond2", parse_expr(nodes[1][2][0][1], pv), "if (%s)" % nodes[1][2][0][1])
+    out += coq_call("pre_call1", c1) + coq_call("pre_call2", c2)
 
-    # ---- crypto_aesctr_stream_post_wholeblock
+    # ---- crypto_aesctr_stream_post_wholeblock:  if (C) { generate(stream); use(.., A, B); }
     out += "\n(* ---- %s *)\n" % POST
     sig = func_sig(shared, POST)
     qv = stream_vars(sig, False)
     first4 = [p[2] for p in sig[:4]]
     out += coq_ty("post_ty_buflen", ctype_of(sig[3][0]), "%s * %s" % (sig[3][0], sig[3][2]))
     nodes = [x for x in parse_block(func_body(shared, POST)) if x[0] != "decl"]
-    ok = len(nodes) == 1 and nodes[0][0] == "if" and not nodes[0][3] and len(nodes[0][2]) == 2 and \
-        nodes[0][2][0][0] == "expr" and squeeze(nodes[0][2][0][1]) == "%s(%s)" % (GEN, sig[0][2])
-    c = use_call(nodes[0][2][1], first4, qv) if ok else None
-    if ok and c:
-        out += coq_expr("post_cond", parse_expr(nodes[0][1], qv), "if (%s)" % nodes[0][1])
-        out += coq_call("post_call", c)
-    else:
-        out += "Definition post_cond : cexpr := EUnknown.\n" + coq_call("post_call", None)
+    if not (len(nodes) == 1 and nodes[0][0] == "if" and not nodes[0][3] and len(nodes[0][2]) == 2 and
+            nodes[0][2][0][0] == "expr" and is_call(nodes[0][2][0][1], GEN, [sig[0][2]])):
+        refuse("shape of " + POST)
+    out += coq_expr("post_cond", parse_expr(nodes[0][1], qv), "if (%s)" % nodes[0][1])
+    out += coq_call("post_call", use_call(nodes[0][2][1], first4, qv))
 
     # ---- crypto_aesctr_stream (no CPU feature macro: the portable loop is the whole function)
+    #      [if (c) return;]* if (pre(stream, &inbuf, &outbuf, &buflen)) return;
+    #      while (C) { generate(stream); use(.., A, B); } post(..);
     out += "\n(* ---- crypto_aesctr_stream, portable loop *)\n"
     sig = func_sig(ctr, "crypto_aesctr_stream")
     sv = stream_vars(sig, True)
@@ -978,20 +1308,18 @@ def arithmetic(repo):
     amp = [st, "&" + ib, "&" + ob, "&" + bl]
     out += coq_ty("sw_ty_buflen", ctype_of(sig[3][0]), "%s %s" % (sig[3][0], sig[3][2]))
     nodes = [x for x in parse_block(func_body(ctr, "crypto_aesctr_stream")) if x[0] != "decl"]
-    # if (pre(stream, &inbuf, &outbuf, &buflen)) return; while (C) { generate(stream); use(.., A, B); } post(..);
-    ok = len(nodes) == 3 and nodes[0][0] == "if" and squeeze(nodes[0][1]) == "%s(%s)" % (PRE, ",".join(amp)) and \
-        len(nodes[0][2]) == 1 and nodes[0][2][0] == ("return", "") and not nodes[0][3] and \
-        nodes[1][0] == "while" and len(nodes[1][2]) == 2 and nodes[1][2][0][0] == "expr" and \
-        squeeze(nodes[1][2][0][1]) == "%s(%s)" % (GEN, st) and \
-        nodes[2][0] == "expr" and squeeze(nodes[2][1]) == "%s(%s)" % (POST, ",".join(amp))
-    c = use_call(nodes[1][2][1], amp, sv) if ok else None
-    if ok and c:
-        out += coq_expr("sw_cond", parse_expr(nodes[1][1], sv), "while (%s)" % nodes[1][1])
-        out += coq_call("sw_call", c)
-    else:
-        out += "Definition sw_cond : cexpr := EUnknown.\n" + coq_call("sw_call", None)
+    early, nodes = early_returns(nodes, {st + "->bytectr": V_BYTECTR, bl: V_BUFLEN})
+    if not (len(nodes) == 3 and nodes[0][0] == "if" and truth_of_call(nodes[0][1], PRE, amp) and
+            nodes[0][2] == [("return", "")] and not nodes[0][3] and
+            nodes[1][0] == "while" and len(nodes[1][2]) == 2 and nodes[1][2][0][0] == "expr" and
+            is_call(nodes[1][2][0][1], GEN, [st]) and
+            nodes[2][0] == "expr" and is_call(nodes[2][1], POST, amp)):
+        refuse("shape of crypto_aesctr_stream")
+    out += coq_exprs("sw_early", early)
+    out += coq_expr("sw_cond", parse_expr(nodes[1][1], sv), "while (%s)" % nodes[1][1])
+    out += coq_call("sw_call", use_call(nodes[1][2][1], amp, sv))
 
-    # ---- crypto_aesctr_aesni_stream
+    # ---- crypto_aesctr_aesni_stream:  [if (c) return;]* if (pre(..)) return; if (C) wholeblocks(..); post(..);
     out += "\n(* ---- crypto_aesctr_aesni_stream *)\n"
     WB = "crypto_aesctr_aesni_stream_wholeblocks"
     sig = func_sig(ni, "crypto_aesctr_aesni_stream")
@@ -1000,39 +1328,61 @@ def arithmetic(repo):
     amp = [st, "&" + ib, "&" + ob, "&" + bl]
     out += coq_ty("ni_ty_buflen", ctype_of(sig[3][0]), "%s %s" % (sig[3][0], sig[3][2]))
     nodes = [x for x in parse_block(func_body(ni, "crypto_aesctr_aesni_stream")) if x[0] != "decl"]
-    ok = len(nodes) == 3 and nodes[0][0] == "if" and squeeze(nodes[0][1]) == "%s(%s)" % (PRE, ",".join(amp)) and \
-        len(nodes[0][2]) == 1 and nodes[0][2][0] == ("return", "") and not nodes[0][3] and \
-        nodes[1][0] == "if" and not nodes[1][3] and len(nodes[1][2]) == 1 and nodes[1][2][0][0] == "expr" and \
-        squeeze(nodes[1][2][0][1]) == "%s(%s)" % (WB, ",".join(amp)) and \
-        nodes[2][0] == "expr" and squeeze(nodes[2][1]) == "%s(%s)" % (POST, ",".join(amp))
-    out += coq_expr("ni_cond", parse_expr(nodes[1][1], nv) if ok else "EUnknown", "if (%s)" % (nodes[1][1] if ok else "?"))
+    early, nodes = early_returns(nodes, {st + "->bytectr": V_BYTECTR, bl: V_BUFLEN})
+    if not (len(nodes) == 3 and nodes[0][0] == "if" and truth_of_call(nodes[0][1], PRE, amp) and
+            nodes[0][2] == [("return", "")] and not nodes[0][3] and
+            nodes[1][0] == "if" and not nodes[1][3] and len(nodes[1][2]) == 1 and nodes[1][2][0][0] == "expr" and
+            is_call(nodes[1][2][0][1], WB, amp) and
+            nodes[2][0] == "expr" and is_call(nodes[2][1], POST, amp)):
+        refuse("shape of crypto_aesctr_aesni_stream")
+    out += coq_exprs("ni_early", early)
+    out += coq_expr("ni_cond", parse_expr(nodes[1][1], nv), "if (%s)" % nodes[1][1])
 
-    # ---- crypto_aesctr_aesni_stream_wholeblocks
+    # ---- crypto_aesctr_aesni_stream_wholeblocks: straight-line prologue; do { .. } while (C); straight-line epilogue
     out += "\n(* ---- %s *)\n" % WB
     sig = func_sig(ni, WB)
     wv = stream_vars(sig, False)
-    S = sig[0][2]
+    S, IB, OB = sig[0][2], sig[1][2], sig[2][2]
     out += coq_ty("wb_ty_buflen", ctype_of(sig[3][0]), "%s * %s" % (sig[3][0], sig[3][2]))
     allnodes = parse_block(func_body(ni, WB))
     nodes = [x for x in allnodes if x[0] != "decl"]
-    arrs = [re.fullmatch(r"uint8_t\s+(\w+)\s*\[\s*8\s*\]", x[1].strip()) for x in allnodes if x[0] == "decl"]
-    arrs = [m.group(1) for m in arrs if m]
-    arr = arrs[0] if len(arrs) == 1 else None
-    out += coq_decls("wb_decls", locals_of(allnodes, flat_texts(nodes), wv))
-    loops = [k for k, x in enumerate(nodes) if x[0] in ("do", "while", "for")]
+    arrs, m128 = [], set()
+    for x in allnodes:
+        if x[0] == "decl":
+            m = re.fullmatch(r"uint8_t\s+(\w+)\s*\[\s*8\s*\]\s*(?:=\s*\{[\s0,]*\})?", x[1].strip())
+            if m:
+                arrs.append(m.group(1))           # (a zero initialiser is dead: be64enc fills all 8 bytes first)
+            m = re.fullmatch(r"__m128i\s+(\w+)", x[1].strip())
+            if m:
+                m128.add(m.group(1))
+    if len(arrs) != 1:
+        refuse("the 8-byte counter array of " + WB)
+    arr = arrs[0]
+    loops = [k for k, x in enumerate(nodes) if x[0] != "expr"]
+    if len(loops) != 1 or nodes[loops[0]][0] != "do":
+        refuse("loop structure of " + WB)
+    k = loops[0]
+    decl = scalar_decls(allnodes)
+    parts = simplify_locals([expr_texts(nodes[:k], WB), expr_texts(nodes[k][1], WB), expr_texts(nodes[k + 1:], WB)], decl)
+    out += coq_decls("wb_decls", number_locals(parts[0] + parts[1] + parts[2], decl, wv))
+    # the __m128i statements are hand-modelled: they must be the known sequence (up to the names of the locals)
+    vec = canon_vec([t for t in parts[0] + parts[1] if is_vec_stmt(t)], m128)
+    want = "v0=load_si64(%s->pblk);v1=load_si64(%s);v1=_mm_unpacklo_epi64(v0,v1);v1=crypto_aes_encrypt_block_aesni_m128i(v1,%s->key);" \
+           "v2=_mm_loadu_si128((const__m128i*)(*%s));v1=_mm_xor_si128(v2,v1);_mm_storeu_si128((__m128i*)(*%s),v1)" % (S, arr, S, IB, OB)
+    if vec != want or any(is_vec_stmt(t) for t in parts[2]):
+        refuse("the __m128i statements of %s: %s" % (WB, vec))
 
-    def stmts(nl):
-        return [parse_stmt(x[1], wv, arr=arr, pblk_name=S + "->pblk") if x[0] == "expr" else "SUnknown " + comment(str(x[0]))
-                for x in nl]
-    if len(loops) == 1 and nodes[loops[0]][0] == "do":
-        k = loops[0]
-        out += coq_stmts("wb_prologue", stmts(nodes[:k]))
-        out += coq_stmts("wb_body", stmts(nodes[k][1]))
-        out += coq_expr("wb_cond", parse_expr(nodes[k][2], wv), "do { ... } while (%s)" % nodes[k][2])
-        out += coq_stmts("wb_epilogue", stmts(nodes[k + 1:]))
-    else:
-        out += "Definition wb_prologue : list cstmt := [SUnknown].\nDefinition wb_body : list cstmt := [SUnknown].\n" \
-               "Definition wb_cond : cexpr := EUnknown.\nDefinition wb_epilogue : list cstmt := [SUnknown].\n"
+    def stmts(tl):
+        return [parse_stmt(t, wv, arr=arr, pblk_name=S + "->pblk") for t in tl]
+    pro, body, epi = stmts(parts[0]), stmts(parts[1]), stmts(parts[2])
+    if any(x.startswith(("SBe64", "SMemcpy")) for x in pro) or \
+            not body or not body[0].startswith("SBe64 0%N") or any(x.startswith(("SBe64", "SMemcpy")) for x in body[1:]) or \
+            sum(x.startswith(("SBe64 1%N", "SMemcpy")) for x in epi) != 1 or any(x.startswith("SBe64 0%N") for x in epi):
+        refuse("placement of the be64enc / memcpy statements of " + WB)
+    out += coq_stmts("wb_prologue", pro)
+    out += coq_stmts("wb_body", body)
+    out += coq_expr("wb_cond", parse_expr(nodes[k][2], wv), "do { ... } while (%s)" % nodes[k][2])
+    out += coq_stmts("wb_epilogue", epi)
     return out
 
 
@@ -1133,12 +1483,11 @@ def extract(repo):
     out += coq_def_N("ctr_init_index", int(m.group(1)))
     out += coq_def_N("ctr_init_byte", int_literal(m.group(2)))
     # --- wipe-on-free: size expressions and call order (C20)
-    out += "Definition alloc_expr_key_aesni : list N :=\n  %s.\n" % coq_str(malloc_expr(func_body(ni, "crypto_aes_key_expand_aesni")))
-    out += coq_calls("free_calls_key_aesni", wipe_calls(func_body(ni, "crypto_aes_key_free_aesni")))
-    out += "Definition alloc_expr_key_sw : list N :=\n  %s.\n" % coq_str(malloc_expr(func_body(aes, "crypto_aes_key_expand")))
-    kf = func_body(aes, "crypto_aes_key_free")
-    kf = kf[kf.rfind("#endif"):] if "#endif" in kf else kf     # the software tail of the function
-    out += coq_calls("free_calls_key_sw", wipe_calls(kf))
-    out += "Definition alloc_expr_ctr : list N :=\n  %s.\n" % coq_str(malloc_expr(func_body(ctr, "crypto_aesctr_alloc")))
-    out += coq_calls("free_calls_ctr", wipe_calls(func_body(ctr, "crypto_aesctr_free")))
+    aes_sw = preprocess(aes, set())                    # the software tail of crypto_aes_key_free
+    out += "Definition alloc_expr_key_aesni : list N :=\n  %s.\n" % coq_str(malloc_expr(ni, "crypto_aes_key_expand_aesni"))
+    out += coq_calls("free_calls_key_aesni", free_path(ni, "crypto_aes_key_free_aesni"))
+    out += "Definition alloc_expr_key_sw : list N :=\n  %s.\n" % coq_str(malloc_expr(aes_sw, "crypto_aes_key_expand"))
+    out += coq_calls("free_calls_key_sw", free_path(aes_sw, "crypto_aes_key_free"))
+    out += "Definition alloc_expr_ctr : list N :=\n  %s.\n" % coq_str(malloc_expr(ctr, "crypto_aesctr_alloc"))
+    out += coq_calls("free_calls_ctr", free_path(ctr, "crypto_aesctr_free"))
     return {"Repo_aes.v": out, "Repo_aes_sel.v": selection(repo), "Repo_aes_arith.v": arithmetic(repo)}
